@@ -96,6 +96,17 @@ def units(tier, seed=0):
         us += famcheck.family_units(allf, [7], T, tag='/scratch', havoc_scratch=True)
     for r in rows[:12] if tier == 'quick' else rows:
         us.append(UnitSpec('globals/%s' % r, 'vf.c20', 'mk_globals', dict(enc=r)))
+    # history independence with hidden state in mind: the same (concrete) bit pattern is first executed in the other
+    # instruction set, the architectural snapshot is re-installed, then the checked step must still match the oracle
+    PRE = [('AddRegisterThumbT3', {'S': 0, 'Rn': 0, '_sb0': 0, 'imm3': 0, 'Rd': 0, 'imm2': 0, 'type': 0, 'Rm': 1}),
+           ('BlBlxImmediateA1', {'cond': 14, 'imm24': 1}), ('LdrImmediateArmA1', {'cond': 14, 'P': 1, 'U': 1, 'W': 0,
+                                                                                  'Rn': 1, 'Rt': 2, 'imm12': 4}),
+           ('MovImmediateT2', {'i': 0, 'S': 0, 'imm3': 0, 'Rd': 1, 'imm8': 0x42}),
+           ('AndRegisterT2', {'S': 1, 'Rn': 2, '_sb0': 0, 'imm3': 0, 'Rd': 3, 'imm2': 0, 'type': 0, 'Rm': 4})]
+    for r, fx in PRE:
+        if r in ISA:
+            us += famcheck.family_units({ISA[r].family}, [7], T, only=[r], tag='/prehistory', prehistory='other-iset',
+                                        fix=fx)
     # isolation: another instance created between construction and step
     iso = ['MovRegisterArmA1', 'LdrImmediateArmA1', 'BxA1', 'SvcA1', 'StrRegisterT2', 'AdcRegisterA1']
     iso = [r for r in iso if r in ISA]
